@@ -358,6 +358,8 @@ impl shuttle_engine::scheduler::Scheduler for PullScheduler {
         };
         let mut inner = SimScheduler::new(job.sched.clone(), mode, sched_out.clone(), job.opts.record_trace);
         let schedule = shuttle_engine::scheduler::Scheduler::new_execution(&mut inner);
+        // reset the per-run runtime state BEFORE the engine asks for its first decision
+        rt::begin_run(job.opts.record_log, job.sched.buggify);
         SLOT.with(|s| *s.borrow_mut() = None);
         FINISH.with(|f| *f.borrow_mut() = None);
         BODY_INPUT.with(|b| {
@@ -387,7 +389,8 @@ impl shuttle_engine::scheduler::Scheduler for PullScheduler {
 fn sim_body() {
     let (scenario, opts, buggify, seed) = BODY_INPUT.with(|b| b.borrow_mut().take()).expect("body input");
     ahash::random_state::verif_reset_seed_counter(seed as usize | 1);
-    rt::begin_run(opts.record_log, buggify);
+    foldhash::verif_reset_seed_counter(seed | 1);
+    let _ = buggify;
     monitor::install(opts.expected_first.clone());
     let db = Arc::new(SimDb::from_scenario(&scenario, true, false));
     let precompile_log = Arc::new(PrecompileLog::default());
